@@ -415,8 +415,15 @@ Section MatchCli.
   Definition trimmed (h : heading) : Prop :=
     strip is_space (inline_title (h_children h)) = inline_title (h_children h).
 
+  (* the two slugify functions agree on the title of the heading *)
+  Definition agree (h : heading) : Prop :=
+    pf (inline_title (h_children h)) = default_slugify lower is_word cls (inline_title (h_children h)).
+
+  Lemma trimmed_agree h : trimmed h -> agree h.
+  Proof. unfold trimmed, agree, pf, plugin_slugify, default_slugify. intro H. rewrite H. reflexivity. Qed.
+
   Lemma anchors_match depth : forall hs i d ss,
-    Forall (fun h => 1 <= h_level h) hs -> Forall trimmed hs ->
+    Forall (fun h => 1 <= h_level h) hs -> Forall agree hs ->
     (forall x, In x (map fst d) <-> In x ss) ->
     exists ids, anchor_func depth pf hs ss = Ok ids /\
       filter (fun li => fst li <=? depth) (combine (map h_level hs) ids) =
@@ -440,7 +447,7 @@ Section MatchCli.
         rewrite E1, E0. cbn [andb negb].
         unfold rf in Hb. inversion Hb as [Hbase].
         assert (Epf : pf (inline_title (h_children h)) = base).
-        { unfold pf, plugin_slugify. unfold trimmed in Ht. rewrite Ht. exact Hbase. }
+        { unfold agree in Ht. rewrite Ht. exact Hbase. }
         rewrite Epf.
         destruct (plugin_unique_ok base ss) as (u & Hu & Hru). rewrite Hu. cbn [bind].
         assert (u = r).
@@ -456,13 +463,20 @@ Section MatchCli.
   Qed.
 
   (* C10_matches_cli_partial *)
-  Theorem matches_cli depth hs : Forall (fun h => 1 <= h_level h) hs -> Forall trimmed hs ->
+  Theorem matches_cli_agree depth hs : Forall (fun h => 1 <= h_level h) hs -> Forall agree hs ->
     print_anchors depth pf hs = Ok (rendered_anchors hs (fst (render_slugs depth rf hs))).
   Proof.
     intros Hge Htr. unfold print_anchors, render_slugs.
     destruct (anchors_match depth hs 0 [] [] Hge Htr) as (ids & Hids & Hf).
     - intro x. simpl. tauto.
     - rewrite Hids. cbn [bind]. rewrite Hf. reflexivity.
+  Qed.
+
+  Theorem matches_cli depth hs : Forall (fun h => 1 <= h_level h) hs -> Forall trimmed hs ->
+    print_anchors depth pf hs = Ok (rendered_anchors hs (fst (render_slugs depth rf hs))).
+  Proof.
+    intros Hge Htr. apply matches_cli_agree; auto.
+    rewrite Forall_forall in *. intros h Hh. apply trimmed_agree. auto.
   Qed.
 End MatchCli.
 
